@@ -196,7 +196,8 @@ func (t *objectType) AttributesInfo() px.AttributesInfo {
 }
 
 func (t *objectType) Constructor(c px.Context) px.Function {
-	if t.ctor == nil {
+	if t.ctor == nil && t.attrInfo != nil {
+		// no attribute info: the default Object type or a type that is not resolved has no constructor
 		t.createNewFunction(c)
 	}
 	return t.ctor
